@@ -34,7 +34,7 @@ pub fn mutations(max: usize) -> BoxedStrategy<Vec<Mutation>> {
 
 pub const ZINC_TOKENS: &[&str] = &[
     "[", "]", "{", "}", "<<", ">>", ",", ":", "\n", "\r\n", "\r", " ", "\"", "\\", "`", "@", "^", "ver:\"3.0\"", "N", "M", "NA", "T", "F", "INF", "-INF", "NaN", "C(", ")", "-", ".", "e", "E", "_", "1",
-    "2021-01-01", "T00:00:00", "Z", " UTC", "+01:00 ", "12:00:00", "\\u00", "\\u", "\\ud83d", "\\udbff\\uffff", "\\ud800", "\\udc00", "\\uD83D\\uDE00", "$", "kW", "°F", "%", "a", "Bin(", "<", ">", "\u{0}", "\u{ff}",
+    "2021-01-01", "T00:00:00", "Z", " UTC", "+01:00 ", "12:00:00", "\\u00", "\\u", "\\ud83d", "\\udbff\\uffff", "\\ud800", "\\udc00", "\\uD83D\\uDE00", "\\ud83d\\u0041", "\\udbff\\u0000", "23:59:60", "12:34:60.5", "1e1_0", "$", "kW", "°F", "%", "a", "Bin(", "<", ">", "\u{0}", "\u{ff}",
 ];
 
 pub const JSON_TOKENS: &[&str] = &[
@@ -45,6 +45,7 @@ pub const JSON_TOKENS: &[&str] = &[
 pub const FILTER_TOKENS: &[&str] = &[
     "and", "or", "not", "(", ")", "==", "!=", "<", "<=", ">", ">=", "*==", "->", "?", "^", "@", "\"", "`", " ", "\n", "true", "false", "a", "b", "1", "2m", "-", "=", "!", "*", "2020-01-01", "12:00:00",
     "T00:00:00Z", "\\", "$", "-INF", "NaN", "^a", "@r", "a->b", "not a", "a?",
+    "\\u00", "\\u", "\\ud83d", "\\ud83d\\u0041", "\\udbff\\udbff", "\\uD83D\\uDE00", "\\udc00", "\\n", "\\$", "\"日本語日本語日本語\"", "é", "‰", "23:59:60", "1e5", "5kW",
 ];
 
 /// Apply one mutation to a byte string.
